@@ -21,7 +21,7 @@ META = {
         "service created before / after start / inside a payload) x failing at the first step or after a delay "
         "(quick: a seeded slice; thorough: all, under several injection seeds); kind=random: 0-5 bystanders of "
         "mixed flavour and state and 1-3 payloads failing within the same few milliseconds in the same or "
-        "different flavours, line-level delay injection, a fifth of them driving a bare MetaRunner; kind=rerun: the "
+        "different flavours, line-level delay injection, a fifth of them driving a bare MetaRunner; kind=pending: a payload fails 50 ms after shutdown() was called but half a second before the accept loop (accept_delay 1 s) looks at the request - judged only if the runner still reported accepting at the failure and its accept loop was cancelled by the failure rather than stopping on request (its own log says which); kind=rerun: the "
         "same runner instance runs a second time with a failing payload queued between the runs; kind=control: no failing payload - payloads ending "
         "with None must not stop the runtime. Non-trivial = a `fail` event was observed; distinct by scenario."
     ),
@@ -68,11 +68,13 @@ def plan(tier, seed):
         specs += [dict(seed=seed, shard="random-%d" % i, kind="random", n=90) for i in range(16)]
         specs += [dict(seed=seed, shard="control-%d" % i, kind="control", n=20) for i in range(4)]
         specs += [dict(seed=seed, shard="rerun-%d" % i, kind="rerun", n=30) for i in range(4)]
+        specs += [dict(seed=seed, shard="pending-%d" % i, kind="pending", n=10) for i in range(4)]
     else:
         specs = [dict(seed=seed, shard="product-%d" % i, kind="product", part=i, parts=8, stride=9, repeat=1, n=1) for i in range(8)]
         specs += [dict(seed=seed, shard="random-%d" % i, kind="random", n=8) for i in range(6)]
         specs += [dict(seed=seed, shard="control-0", kind="control", n=6)]
         specs += [dict(seed=seed, shard="rerun-%d" % i, kind="rerun", n=6) for i in range(2)]
+        specs += [dict(seed=seed, shard="pending-%d" % i, kind="pending", n=2) for i in range(3)]
     del total
     return specs
 
@@ -195,11 +197,34 @@ def gen_control_case(rnd, spec):
     return {"watchdog": 25, "inject": common.inject_conf(rnd, 0.5), "generations": [gen], "meta": {"kind": "control", "fail": []}}
 
 
+def gen_pending_case(rnd, spec):
+    """A failure while a shutdown request is pending: shutdown() has been called, but the accept loop (polling once per
+    accept_delay) has not noticed yet - the runtime is still running as ever, so the failure counts."""
+    flavour = rnd.choice(common.FLAVOURS)
+    what = rnd.choice(["LookupError", "ValueError", "CustomWithArgs"])
+    gen = {"accept_delay": 1.0, "services": [], "grace": 0.2,
+           "payloads": [{"id": "heart", "flavour": "asyncio", "when": "queued", "program": [["beat", 0.05, None]], "cleanup": {"kind": "none"}},
+                        {"id": "f0", "flavour": flavour, "program": [["raise", what]], "cleanup": {"kind": "none"}}],
+           # the accept loop polls after 0, 0.1, 0.3, 0.6, 1.0, 1.5, 2.1, 2.8 ... s: at 2.3 s the next look at the flag is 0.5 s away
+           "script": [["wait_running", 8], ["sleep", 2.3], ["thread", [["shutdown"]]], ["sleep", 0.05], ["adopt", "f0"],
+                      ["expect_end", PATIENCE]]}
+    return {"watchdog": 30, "inject": None, "generations": [gen],
+            "meta": {"kind": "pending", "fail": [[flavour, "raise", what, "exception", "running", False]]}}
+
+
 def judge(case, run, result):
     trouble = common.harness_trouble(run)
     if trouble:
         result.inconc(trouble)
         return []
+    if case["meta"]["kind"] == "pending":
+        fail = run.first("fail", gen=0)
+        how = [e["how"] for e in run.of("acceptor", gen=0)]
+        if fail is None or not fail.get("accepting") or "stopped" in how or "cancelled" not in how:
+            # the accept loop noticed the request by itself ("stopped"): the failure raced with the shutdown proper
+            result.count("pending_shutdown_scenarios_not_judged")
+            return []
+        result.count("failures_while_a_shutdown_request_was_pending")
     g = case["meta"].get("judge_gen", 0)
     fails = [e for e in run.of("fail", gen=g)]
     ended = run.first("accept-ended", gen=g)
@@ -278,7 +303,7 @@ def run_shard(spec):
         gen = lambda i, rep: gen_product_case(core.rng(PID, spec["seed"], "product", i, rep), items[i])  # noqa: E731
     else:
         todo = [(i, 0) for i in range(spec["n"])]
-        g = {"random": gen_random_case, "control": gen_control_case, "rerun": gen_rerun_case}[spec["kind"]]
+        g = {"random": gen_random_case, "control": gen_control_case, "rerun": gen_rerun_case, "pending": gen_pending_case}[spec["kind"]]
         gen = lambda i, rep: g(core.rng(PID, spec["seed"], spec["shard"], i), spec)  # noqa: E731
     for i, rep in todo:
         cid = i * 10 + rep
@@ -295,7 +320,8 @@ def run_shard(spec):
 
 
 def finish(total, tier):
-    need = ["scenarios_with_failure", "scenarios_driving_metarunner_directly", "reruns_of_the_same_runner", "strong_clause_checked", "base_clause_checked", "matched_exception", "matched_return", "control_scenarios"]
+    need = ["scenarios_with_failure", "scenarios_driving_metarunner_directly", "reruns_of_the_same_runner", "strong_clause_checked", "base_clause_checked", "matched_exception", "matched_return", "control_scenarios",
+            "failures_while_a_shutdown_request_was_pending"]
     need += ["reg_" + r for r in REGISTRATIONS] + ["flavour_" + f for f in common.FLAVOURS]
     for name in need:
         if not total.counters.get(name) and not total.violations:
